@@ -77,7 +77,7 @@ def build(tier="quick", seed=0):
         return paths, intact
 
     SELECTORS = {None: lambda r: True, "r.n >= 2": lambda r: it.unbase(r.attrs["n"]) >= 2, "r.n != 3 and has_field(r, 's')": lambda r: it.unbase(r.attrs["n"]) != 3 and "s" in r.attrs, "name(r) == 'c16/b' or r.n == 0": lambda r: r.cls.name == "c16_b" or it.unbase(r.attrs["n"]) == 0,
-                 "r.nosuch == 1": lambda r: False, "r.n >= 1": lambda r: it.unbase(r.attrs["n"]) >= 1}
+                 "r.nosuch == 1": lambda r: False, "r.n >= 1": lambda r: it.unbase(r.attrs["n"]) >= 1, "any(x == r.n for x in (0, 2, 3, 5))": lambda r: it.unbase(r.attrs["n"]) in (0, 2, 3, 5)}
 
     def reference(intact, opts):
         recs = [r for src in intact for r in src]
@@ -197,7 +197,7 @@ def build(tier="quick", seed=0):
     LAYOUT = ["ABA", "BA", "A"]
     OPTS = [{}, {"skip": 1}, {"skip": 2, "count": 2}, {"count": 1}, {"count": 0}, {"skip": 7}, {"selector": "r.n >= 2"}, {"selector": "r.n >= 2", "skip": 1, "count": 2}, {"selector": "r.n >= 2", "no_compile": True, "skip": 1, "count": 2},
             {"selector": "r.n != 3 and has_field(r, 's')", "no_compile": True}, {"selector": "name(r) == 'c16/b' or r.n == 0"}, {"selector": "r.nosuch == 1"}, {"fields": ["s", "n"]}, {"exclude": ["ts", "ts2"]}, {"fields": ["n", "s", "nosuch"], "exclude": ["s"]},
-            {"record_source": "src-x"}, {"record_classification": "cls-y", "record_source": ""}, {"multi_timestamp": True}, {"multi_timestamp": True, "exclude": ["ts2"], "skip": 1}, {"selector": "r.n >= 1", "skip": 1, "count": 3, "fields": ["n", "ts"], "record_source": "z", "multi_timestamp": True}]
+            {"selector": "any(x == r.n for x in (0, 2, 3, 5))", "no_compile": True}, {"selector": "any(x == r.n for x in (0, 2, 3, 5))"}, {"record_source": "src-x"}, {"record_classification": "cls-y", "record_source": ""}, {"multi_timestamp": True}, {"multi_timestamp": True, "exclude": ["ts2"], "skip": 1}, {"selector": "r.n >= 1", "skip": 1, "count": 3, "fields": ["n", "ts"], "record_source": "z", "multi_timestamp": True}]
 
     def th_pipeline(opts):
         def th():
@@ -263,6 +263,37 @@ def build(tier="quick", seed=0):
         pack.add(Obligation(name, lambda tier, name=name, opts=opts: prove_paths(name, th_writers(opts), judge_writers, lambda m_, p: {}, allow_raise=("UnicodeEncodeError", "error")), replay=lambda w, opts=opts: {"call": "c16_writers", "args": {"opts": opts}}, functions=FU,
                             mode="five writers / modes, decoded from what each wrote (stdout modelled for the modes)"))
 
+    # ------------------------------------------------------------------ --split: parts hold at most COUNT records and together are the output, also beyond 10**suffix-length parts
+    def th_split(count, suffix_length, nrec):
+        def th():
+            fresh()
+            paths, intact = make_sources(["A" * nrec])
+            rc, _, _ = run_main(["--split", str(count), "--suffix-length", str(suffix_length), "-w", "/abs/out.records"] + paths)
+            parts = sorted(p_ for p_ in it.vfs if p_.startswith("/abs/out."))
+            got, sizes = [], []
+            for p_ in parts:
+                try:
+                    recs = decode_output("stream", it.vfs[p_])
+                except PyRaise:
+                    recs = []  # (a trailing part without records: the known lazy-header finding of C17)
+                sizes.append(len(recs))
+                got += recs
+            return got, reference(intact, {}), sizes, count
+        return th
+
+    def judge_split(p):
+        got, want, sizes, count = p.value
+        if any(sz > count for sz in sizes):
+            return False, f"a part holds more than {count} records: {sizes}"
+        if len(got) != len(want):
+            return False, f"the parts hold {len(got)} records in {len(sizes)} files, {len(want)} were written (parts overwritten?)"
+        return compare(sorted(got, key=lambda o: it.unbase(o[2]["n"])), want)
+
+    for count, sl, nrec in ((2, 2, 5), (1, 1, 12), (3, 1, 7)):
+        name = f"C16.split[--split {count} --suffix-length {sl}, {nrec} records]"
+        pack.add(Obligation(name, lambda tier, name=name, count=count, sl=sl, nrec=nrec: prove_paths(name, th_split(count, sl, nrec), judge_split, lambda m_, p: {}, allow_raise=("UnicodeEncodeError", "error")), replay=lambda w, count=count, sl=sl, nrec=nrec: {"call": "c16_split", "args": {"count": count, "suffix_length": sl, "n": nrec}},
+                            functions=FU, mode="concrete record counts incl. more parts than 10**suffix-length"))
+
     # ------------------------------------------------------------------ canary / bounded
     def run_canary(tier):
         def th():
@@ -284,5 +315,5 @@ def build(tier="quick", seed=0):
     pack.add(Obligation("C16.rdump_sweep", run_sweep, kind="bounded", note="native runs of rdump.main on real files against the reference pipeline: random option combinations (skip, count, selector, -n, -F, -X, metadata overrides, --multi-timestamp, --split, writer URIs and modes) x generated multi-type inputs in "
                         "several files and compressions x every placement of missing / truncated / garbage sources; bound 60 (quick) / 1200 (thorough) runs", functions=FU))
     pack.assumptions += ["argparse runs natively on the concrete argument vector", "file-system / codec / csv / json / msgpack models", "COUNT absent or 0 means no limit (tests/test_regression.py::test_rdump_count_list documents '--count 0 should be ignored')"]
-    pack.not_covered = ["process-level behaviour (exit codes, SIGPIPE handling, the console-script entry point)", "--split and -E / --exec-expression, --list (only in the bounded sweep)", "option values beyond the representative combinations in the deductive part"]
+    pack.not_covered = ["process-level behaviour (exit codes, SIGPIPE handling, the console-script entry point)", "-E / --exec-expression and --list (only in the bounded sweep)", "option values beyond the representative combinations in the deductive part"]
     return pack
